@@ -427,7 +427,35 @@ func (e *env) render(t string) string {
 // incarnation before "added"; a racing Add completing before the remover logs
 // "removed"). Incarnations of the target are therefore tracked explicitly
 // from the invocation events (addinv / reminv) as well.
+// check judges the trace of one target. One point of a trace can be
+// ambiguous: while a Remove and a racing Add of the same name are both in
+// flight and the old incarnation has no stream open, a dial or stream opening
+// may belong to the old incarnation (not cancelled yet) or be the first event
+// of the new one (whose Add has not been logged as returned yet). The trace is
+// accepted if it is valid under either attribution.
 func (e *env) check(t string, viol func(class, format string, a ...interface{})) {
+	type v struct {
+		class, msg string
+	}
+	var first []v
+	for _, guessNew := range []bool{false, true} {
+		var got []v
+		e.checkWith(t, guessNew, func(class, format string, a ...interface{}) {
+			got = append(got, v{class, fmt.Sprintf(format, a...)})
+		})
+		if len(got) == 0 {
+			return
+		}
+		if first == nil {
+			first = got
+		}
+	}
+	for _, x := range first {
+		viol(x.class, "%s", x.msg)
+	}
+}
+
+func (e *env) checkWith(t string, guessNew bool, viol func(class, format string, a ...interface{})) {
 	type st struct {
 		open, ended, connected, reset bool
 		msgs                          []string // returned by Recv
@@ -493,7 +521,7 @@ func (e *env) check(t string, viol func(class, format string, a ...interface{}))
 			continue
 		}
 		// first event of the incarnation created by an Add that is still in flight
-		if (ev.kind == "open" || ev.kind == "refused") && addInFlight && !implicitAdded && (removed || (removeInFlight && sessionDone() && cur.open)) {
+		if (ev.kind == "open" || ev.kind == "refused") && addInFlight && !implicitAdded && (removed || (removeInFlight && sessionDone() && (cur.open || guessNew))) {
 			if !startIncarnation(i) {
 				return
 			}
